@@ -415,7 +415,7 @@ func TestC06Bindings(t *testing.T) {
 		}
 		for i, n := 0, rapid.IntRange(1, 5).Draw(rt, "nops"); i < n; i++ {
 			kind := rapid.SampledFrom(gen.OpKinds).Draw(rt, "kind")
-			if kind == "as" || kind == "render" {
+			if kind == "as" {
 				kind = "where"
 			}
 			op, ns, ok := g.TypedOp(kind, s, tenv, 2)
